@@ -7,7 +7,7 @@ from pvlib import Reporter, write_evidence, tlc_gen, pv, read_ndjson, log, OUT, 
 
 def simple_check(prop, tier, replay, gens, kind, rule, tv_module=None, boundary=None, tv_invariants=(),
                  pv_env=None, assumptions=(), nontrivial_tags=None, level="model_checking", describe=None,
-                 exhaustive=True):
+                 exhaustive=True, extra_vectors=()):
     """gens: list of dict(module, constants, invariants, spec, nshards, no_shard_consts, simulate, depth)"""
     t0 = time.time()
     rep = Reporter(prop, tier)
@@ -42,6 +42,11 @@ def simple_check(prop, tier, replay, gens, kind, rule, tv_module=None, boundary=
                                   "constants": {k: (sorted(v) if isinstance(v, (set, frozenset)) else v) for k, v in g["constants"].items()},
                                   "mode": "exhaustive" if not g.get("simulate") else f"tlc -simulate num={g['simulate']} x {g.get('nshards', 1)} seeds",
                                   "states": gen["distinct"], "vectors": len(seen)})
+    if extra_vectors and not replay:
+        with open(vec_path, "a") as f:
+            for v in extra_vectors:
+                f.write(json.dumps(v) + "\n")
+        space_cov.append({"module": "additional inputs (repository files / catalogue)", "vectors": len(extra_vectors)})
     outp = os.path.join(OUT, f"{prop}_{tier}.replay.ndjson")
     pv(["replay", kind, vec_path, outp], env=pv_env)
     res = read_ndjson(outp)
@@ -321,6 +326,27 @@ def c18(prop, tier, replay):
         nontrivial_tags=["several_terminals"], exhaustive=(tier != "quick"))
 
 
+PAR_FLAGS = {"lr", "ut", "ntt", "tt", "cm", "auto", "um", "modes", "um2", "skip", "clipn", "memn", "utn", "clipt", "memt", "utt", "la"}
+
+
+def c25(prop, tier, replay):
+    gens = [{"module": "Gen_Flags", "constants": {"Flags": PAR_FLAGS, "MinOn": 0, "MaxOn": 3 if tier == "quick" else 5},
+             "invariants": ["Emit"], "no_shard_consts": True},
+            {"module": "Gen_Flags", "constants": {"Flags": PAR_FLAGS, "MinOn": len(PAR_FLAGS) - 2, "MaxOn": len(PAR_FLAGS)},
+             "invariants": ["Emit"], "no_shard_consts": True}]
+    extra = [{"par": open(f).read(), "id": f} for f in corpus_pars()]
+    return simple_check(
+        prop, tier, replay, gens, "c25",
+        f"feature combinations of the PAR model ({len(PAR_FLAGS)} features: grammar type, %user_type/%nt_type/%t_type, comments, auto newline/ws "
+        "off, %allow_unmatched per state, a second scanner state with %on/%enter and %skip, clipped / member-named / user-typed terminals and "
+        "non-terminals, positive and negative lookahead): every subset of up to 3 (5) features and every subset missing at most 2, enumerated "
+        "by Gen_Flags.tla, plus every .par file of the repository; the grammar is read, rendered with render_par_string and read back - before "
+        "and after check_and_transform_grammar; ParModel.tla compares the two models field by field (start, type, title, comment, type "
+        "declarations, scanner configurations, productions with all symbol attributes). non-trivial: grammar accepted",
+        tv_module="ParModel", boundary="roundtrip", nontrivial_tags=["accepted"], extra_vectors=extra, exhaustive=False,
+        describe=lambda first, ev, run_ev: ({"vec": ev.get("vec"), "why": ev.get("why"), "stage": ev.get("stage")}, json.dumps(ev)[:500]))
+
+
 def c21(prop, tier, replay):
     return tables_check(prop, tier, replay,
                         "for every accepted grammar of three sources - the TLC-enumerated well-formed grammar universe as LL(k) and as LALR(1), the "
@@ -332,4 +358,4 @@ def c21(prop, tier, replay):
                         "predicted productions belong to their non-terminal). non-trivial = grammar accepted")
 
 
-REGISTRY = {"C31": c31, "C32": c32, "C09": c09, "C21": c21, "C33": c33, "C18": c18}
+REGISTRY = {"C31": c31, "C32": c32, "C09": c09, "C21": c21, "C33": c33, "C18": c18, "C25": c25}
